@@ -37,12 +37,21 @@ type c07Case struct {
 	Decisions []byte `json:"decisions"`
 	Copy      bool   `json:"copy"`
 	Procs     int    `json:"procs"` // GOMAXPROCS during the run (0: 4)
+	ND        bool   `json:"nd"`    // ParseND: the document is followed by a second line
 	Reuse     bool   `json:"reuse"` // parse into an object that was used before
 }
 
 var c07Templates = []string{`1`, `"s"`, `[]`, `{"a":1}`, `"a longer string value with \n escape"`, `[1,2,[3,{"k":null}]]`, `true`, `12345.678e-3`}
 
 func (c c07Case) doc() []byte {
+	d := c.doc1()
+	if c.ND {
+		d = append(append([]byte(nil), d...), []byte("\n{\"second\":[\"line\",2]}\r\n")...)
+	}
+	return d
+}
+
+func (c c07Case) doc1() []byte {
 	var b bytes.Buffer
 	tmpl := c07Templates[c.Kind%len(c07Templates)]
 	b.Grow(c.N*(len(tmpl)+1) + 2)
@@ -372,7 +381,11 @@ func (s *sched) run(doc []byte, reuse *simdjson.ParsedJson, copyStrings bool) (p
 	simdjson.VerifSetPipeHook(s.hook)
 	go func() {
 		defer close(done)
-		pj, perr = simdjson.Parse(doc, reuse, simdjson.WithCopyStrings(copyStrings))
+		if s.c.ND {
+			pj, perr = simdjson.ParseND(doc, reuse, simdjson.WithCopyStrings(copyStrings))
+		} else {
+			pj, perr = simdjson.Parse(doc, reuse, simdjson.WithCopyStrings(copyStrings))
+		}
 	}()
 	finished := false
 	for !finished {
@@ -456,6 +469,18 @@ func c07Check(c c07Case) error {
 	defer runtime.GOMAXPROCS(oldProcs)
 
 	verdict, model := rj.Classify(doc)
+	var ndDocs []*rj.Node
+	if c.ND {
+		ok, docs, judged, why := ndExpectation(doc)
+		if !judged {
+			return bugf("C07 ND document not judged: %s", why)
+		}
+		ndDocs = docs
+		verdict = rj.MustReject
+		if ok {
+			verdict = rj.MustAccept
+		}
+	}
 	if verdict == rj.Either {
 		return bugf("C07 generator produced an EITHER-class document")
 	}
@@ -489,10 +514,15 @@ func c07Check(c c07Case) error {
 	}
 	target := pj
 	if perr == nil {
-		if err := rj.ResolveNumbers(model); err != nil {
-			return bugf("%v", err)
+		var want []byte
+		if c.ND {
+			want = modelCanonAll(ndDocs, canonOpts{})
+		} else {
+			if err := rj.ResolveNumbers(model); err != nil {
+				return bugf("%v", err)
+			}
+			want = canonNode(nil, model, canonOpts{})
 		}
-		want := canonNode(nil, model, canonOpts{})
 		got, err := walkW1(pj)
 		if err != nil {
 			return fmt.Errorf("I5: result not traversable: %v\n%s", err, describe())
@@ -557,6 +587,7 @@ func genC07Case(t *rapid.T) c07Case {
 		}
 	}
 	c.Procs = []int{1, 2, 4, 16}[rapid.IntRange(0, 3).Draw(t, "gomaxprocs")]
+	c.ND = rapid.IntRange(0, 3).Draw(t, "nd") == 0
 	c.Strategy = rapid.IntRange(0, 3).Draw(t, "strategy")
 	c.K1 = rapid.IntRange(0, 40).Draw(t, "k1")
 	c.K2 = rapid.IntRange(0, 40).Draw(t, "k2")
@@ -571,7 +602,13 @@ func TestC07_Schedules(t *testing.T) {
 		c := genC07Case(t)
 		// keep the document inside the domain (valid or clearly invalid, > 8 KiB)
 		doc := c.doc()
-		if v, _ := rj.Classify(doc); v == rj.Either || len(bytes.TrimSpace(doc)) <= 8<<10 {
+		if c.ND {
+			if _, _, judged, _ := ndExpectation(doc); !judged {
+				col("C07").Skip("ND document not judged")
+				return
+			}
+		}
+		if v, _ := rj.Classify(doc); (!c.ND && v == rj.Either) || len(bytes.TrimSpace(doc)) <= 8<<10 {
 			col("C07").Skip("document outside the domain (EITHER class or <= 8 KiB after the injected error)")
 			return
 		}
@@ -611,6 +648,18 @@ func c07RaceCheck(rc c07RaceCase) error {
 	old := runtime.GOMAXPROCS(procs)
 	defer runtime.GOMAXPROCS(old)
 	verdict, model := rj.Classify(doc)
+	var ndDocs []*rj.Node
+	if c.ND {
+		ok, docs, judged, _ := ndExpectation(doc)
+		if !judged {
+			return nil
+		}
+		ndDocs = docs
+		verdict = rj.MustReject
+		if ok {
+			verdict = rj.MustAccept
+		}
+	}
 	if verdict == rj.Either {
 		return bugf("EITHER-class document")
 	}
@@ -637,14 +686,25 @@ func c07RaceCheck(rc c07RaceCase) error {
 		}
 	}
 	simdjson.VerifSetPipeHook(hook)
-	pj, perr := simdjson.Parse(append([]byte(nil), doc...), nil, simdjson.WithCopyStrings(c.Copy))
+	var pj *simdjson.ParsedJson
+	var perr error
+	if c.ND {
+		pj, perr = simdjson.ParseND(append([]byte(nil), doc...), nil, simdjson.WithCopyStrings(c.Copy))
+	} else {
+		pj, perr = simdjson.Parse(append([]byte(nil), doc...), nil, simdjson.WithCopyStrings(c.Copy))
+	}
 	simdjson.VerifSetPipeHook(nil)
 	if (perr == nil) != (verdict == rj.MustAccept) {
 		return fmt.Errorf("I5: Parse err=%v but the document is %v (GOMAXPROCS %d, %d bytes)", perr, verdict, procs, len(doc))
 	}
 	if perr == nil {
-		rj.ResolveNumbers(model)
-		want := canonNode(nil, model, canonOpts{})
+		var want []byte
+		if c.ND {
+			want = modelCanonAll(ndDocs, canonOpts{})
+		} else {
+			rj.ResolveNumbers(model)
+			want = canonNode(nil, model, canonOpts{})
+		}
 		got, err := walkW1(pj)
 		if err != nil || !bytes.Equal(want, got) {
 			return fmt.Errorf("I5: document differs under GOMAXPROCS %d: %v %s", procs, err, diffCanon(want, got))
@@ -659,7 +719,7 @@ func TestC07R_Race(t *testing.T) {
 	runRapid(t, "C07R_Race", nCases(2_000, 40_000), func(t *rapid.T) {
 		c := genC07Case(t)
 		doc := c.doc()
-		if v, _ := rj.Classify(doc); v == rj.Either {
+		if v, _ := rj.Classify(doc); v == rj.Either && !c.ND {
 			return
 		}
 		rc := c07RaceCase{C: c, Procs: []int{1, 2, 3, 8, 16}[rapid.IntRange(0, 4).Draw(t, "procs")], Yield: rapid.SliceOfN(rapid.Byte(), 0, 32).Draw(t, "yield")}
